@@ -468,7 +468,9 @@ mut('c06-fold-layer-positional', ['C06'], 'Fold.forward passes stride/dilation p
 mut('c06-maxpool2d-stride-default', ['C06'], 'MaxPool2d default stride is 1', [(LY, "        kernel_size = np.broadcast_to(kernel_size, 2)\n        if stride is None: stride = kernel_size\n        else: stride = np.broadcast_to(stride, 2)\n        padding = np.broadcast_to(padding, 2)\n        dilation = np.broadcast_to(dilation, 2)\n        \n        self.kernel_size = kernel_size\n        self.stride = stride\n        self.padding = padding\n        self.dilation = dilation\n        \n    def forward(self, x: Tensor) -> Tensor: \n        return F.max_pool2d(", "        kernel_size = np.broadcast_to(kernel_size, 2)\n        if stride is None: stride = np.broadcast_to(1, 2)\n        else: stride = np.broadcast_to(stride, 2)\n        padding = np.broadcast_to(padding, 2)\n        dilation = np.broadcast_to(dilation, 2)\n        \n        self.kernel_size = kernel_size\n        self.stride = stride\n        self.padding = padding\n        self.dilation = dilation\n        \n    def forward(self, x: Tensor) -> Tensor: \n        return F.max_pool2d(")], rules=['C06.LAYER-GEOM'])
 mut('c16-col2im-overwrite', ['C16'], 'col2im_v2 overwrites overlapping windows', [(CT, "output[:, :, h_start:h_end:h_step, w_start:w_end:w_step] = o + window", "output[:, :, h_start:h_end:h_step, w_start:w_end:w_step] = window")], rules=['C16.ACCUMULATE'])
 mut('c16-col2im-index-stride-dilation', ['C16'], 'col2im computes its indices with stride and dilation swapped', [(CT, "col_indices = get_im2col_indices((N, C, H, W), kernel_size=kernel_size, dilation=dilation, padding=padding, stride=stride)", "col_indices = get_im2col_indices((N, C, H, W), kernel_size=kernel_size, dilation=stride, padding=padding, stride=dilation)")], rules=['C16.PAIR-INDEX'])
-mut('c16-v2-window-end', ['C16'], 'col2im_v2 window end off by the dilation term', [(CT, "            h_end = i * stride[0] + kernel_size[0] + (dilation[0] - 1) * (kernel_size[0] - 1)\n            h_step = dilation[0]\n            w_start = j * stride[1]", "            h_end = i * stride[0] + kernel_size[0] + (dilation[0] - 1) * kernel_size[0]\n            h_step = dilation[0]\n            w_start = j * stride[1]")], rules=['C16.PAIR-SLICE'])
+# a window end of start + k*d selects the same k rows as start + (k-1)*d + 1 (Python slicing): the old text rule alarmed on it, the evaluated rule must not
+mut('c16-twin-v2-window-end-kd', ['C16'], 'col2im_v2 window end written as start + k*d (same k rows selected)', [(CT, "            h_end = i * stride[0] + kernel_size[0] + (dilation[0] - 1) * (kernel_size[0] - 1)\n            h_step = dilation[0]\n            w_start = j * stride[1]", "            h_end = i * stride[0] + kernel_size[0] + (dilation[0] - 1) * kernel_size[0]\n            h_step = dilation[0]\n            w_start = j * stride[1]")], expect='silent')
+mut('c16-v2-window-end', ['C16'], 'col2im_v2 window end one dilation step short (last kernel row dropped)', [(CT, "            h_end = i * stride[0] + kernel_size[0] + (dilation[0] - 1) * (kernel_size[0] - 1)\n            h_step = dilation[0]\n            w_start = j * stride[1]", "            h_end = i * stride[0] + kernel_size[0] + (dilation[0] - 1) * (kernel_size[0] - 1) - dilation[0]\n            h_step = dilation[0]\n            w_start = j * stride[1]")], rules=['C16.PAIR-SLICE'])
 mut('c16-v2-column-index', ['C16'], 'im2col_v2 writes window (i, j) into column j*lH + i', [(CT, "output[:, :, i*lW + j] = window.ravel().reshape(output[:, :, i*lW + j].shape)", "output[:, :, j*lH + i] = window.ravel().reshape(output[:, :, j*lH + i].shape)")], rules=['C16.PAIR-SLICE'])
 mut('c16-fast-stride-as-dilation', ['C16'], 'col2im_fast hands (dilation, padding, stride) to place_windows', [(CT, "output = place_windows(windows, output_shape, kernel_size, stride, padding, dilation)", "output = place_windows(windows, output_shape, kernel_size, dilation, padding, stride)")], rules=['C16.PAIR-FAST'])
 mut('c16-crop-asymmetric', ['C16'], 'col2im crops p+1 on the left', [(CT, "        output = output[:, :, padding[0]:H_with_pad-padding[0], padding[1]:W_with_pad-padding[1]]\n\n    out = output if not return_indices", "        output = output[:, :, padding[0]+1:H_with_pad-padding[0]+1, padding[1]:W_with_pad-padding[1]]\n\n    out = output if not return_indices")], rules=['C16.PADCROP'])
